@@ -18,7 +18,8 @@ RULE = ("months chosen so that all 28 month shapes (length 28..31 x weekday of t
         "zoneinfo) x instances on/around that day and elsewhere in its month/quarter/year x fold 0/1 x times 00:00, inside the gap, noon, and "
         "for each such day g and each target T = g-6..g+6 the calls that reach T across g (zone-enumerated) -- each compared with the Coq "
         "model Model/WeekdayZone.v run on the zone's table (wall fields, fold and utcoffset of the result and of the constructed instance) AND "
-        "with zoneinfo arithmetic; in the quick tier two of three year-unit nth_of zone cases are oracle-only (model budget); "
+        "with zoneinfo arithmetic; model budget: two of three year-unit nth_of zone cases of the quick tier (three of four, and every other "
+        "quarter-unit one, in the thorough tier) are oracle-only; "
         "`firstweekday`: process-wide configuration set before the call -- calendar.setfirstweekday(0..6) x Date/DateTime x first_of/last_of "
         "(3 units, None + 7 weekdays) x nth_of (n = 1, 2), the setting is an argument of the case (self-contained replay) and is modelled "
         "(fw_* functions; the configured calendar.monthcalendar itself is validated against calendar.Calendar(fw)); every result must be a "
@@ -267,15 +268,17 @@ def _zone_cases(tier, seed, rnd):
         for _ in range(40 if thorough else 10):
             g = _dt.date.fromordinal(rnd.randrange(_dt.date(1990, 1, 1).toordinal(), _dt.date(2035, 1, 1).toordinal()))
             out += _around(zone, g, rnd, 6, "zone-control")
-    if not thorough:
-        # budget of the quick tier: a year-unit nth_of costs the model ~13 ms (up to 53 next() hops of up to 7 create() each),
-        # so two out of three of them are left to the oracle alone ("model": 0); every other zone case is modelled
-        k = 0
-        for c in out:
-            if c["args"][0] == 4 and c["args"][7] == 2:
-                k += 1
-                if k % 3:
-                    c["model"] = 0
+    # model budget: a year-unit nth_of costs the model ~13 ms (up to 53 next() hops of up to 7 create() each), a quarter-unit one
+    # ~4 ms; quick tier: one in three year-unit cases is modelled; thorough tier (13 x more zone cases): one in four year-unit and
+    # one in two quarter-unit cases; the others are left to the oracle alone ("model": 0); every other zone case is modelled
+    every = {2: 4, 1: 2} if thorough else {2: 3}
+    k = {1: 0, 2: 0}
+    for c in out:
+        u = c["args"][7]
+        if c["args"][0] == 4 and u in every:
+            k[u] += 1
+            if k[u] % every[u] != 1:
+                c["model"] = 0
     return out
 
 
@@ -1045,7 +1048,7 @@ LEVEL_NOTE = ("Trusted: Coq kernel+VM, the hand model Model/Weekday.v (tied by c
               "Model/WeekdayZone.v (z_* functions, inside the model; tied by the zone-* streams, both backends; the known() region of finding "
               "skipped-midnight-day is now also bounded by the model: a result that differs from the model of the defect is a violation). "
               "calendar.setfirstweekday: inside the model (fw_* functions, stream firstweekday). Oracle-only: two of three year-unit nth_of zone "
-              "cases of the quick tier (model budget; all are modelled in the thorough tier). Finding nth-of-overflow-at-max-year is fixed (nth_of catches the "
+              "cases of the quick tier (model budget; thorough: three of four year-unit, one of two quarter-unit). Finding nth-of-overflow-at-max-year is fixed (nth_of catches the "
               "OverflowError of the stepping loop): its former _refuted/_partial theorems are replaced by nth_of_raises_pendulum_exception, "
               "nth_of_raises_nothing_else, nth_of_returns_nth_or_raises; the deterministic nth-max-year stream keeps the region exercised.")
 TECHNIQUE = ("Coq proof (lia with mod 7, induction on loop fuel / n, calendar bijection lemmas) over a hand model whose next/previous bodies are "
